@@ -149,12 +149,13 @@ impl<'a> SignatureManyReader<'a> {
         })
     }
 
+    /// Number of signatures. An errored reader has none to offer.
     pub fn num_signatures(&self) -> usize {
         match self {
             Self::Init { packets, .. } => packets.len(),
             Self::Body { packets, .. } => packets.len(),
             Self::Done { hashes, .. } => hashes.len(),
-            Self::Error => panic!("SignatureOnePassManyReader errored"),
+            Self::Error => 0,
         }
     }
 
@@ -191,7 +192,7 @@ impl<'a> SignatureManyReader<'a> {
             Self::Init { .. } => None,
             Self::Body { .. } => None,
             Self::Done { hashes, .. } => hashes.get(index).and_then(|h| h.as_deref()),
-            Self::Error => panic!("SignatureOnePassManyReader errored"),
+            Self::Error => None,
         }
     }
 
@@ -200,7 +201,7 @@ impl<'a> SignatureManyReader<'a> {
             Self::Init { .. } => None,
             Self::Body { .. } => None,
             Self::Done { signatures, .. } => signatures.get(index).map(|s| s.signature()),
-            Self::Error => panic!("SignatureOnePassManyReader errored"),
+            Self::Error => None,
         }
     }
 
